@@ -8,6 +8,7 @@ Not decided: byte-level round trip through zstd / UTF-8.
 from __future__ import annotations
 
 import ast
+import copy
 import re
 
 from ..cfg import CFG, EXIT, RAISE
@@ -68,28 +69,49 @@ def const_int(txt: str):
 def byte_parts(p, value):
     """the bytes a path returns as a list of ("bytes", expr) / ("byte", expr) parts in order; None when not understood.
     Understands bytes(x) / bytearray(x), a + b, and a bytearray accumulator with append / extend / += effects."""
-    def parts(e, depth=0):
+    def parts(e, depth=0, upto=None):
+        upto = len(p.effects) if upto is None else upto
         if depth > 6:
             return None
         if isinstance(e, ast.Call) and u(e.func) in ("bytes", "bytearray") and len(e.args) == 1 and not e.keywords:
             if isinstance(e.args[0], (ast.List, ast.Tuple)) and not any(isinstance(x, ast.Starred) for x in e.args[0].elts):       # bytes([a, b])
                 return [("byte", u(x)) for x in e.args[0].elts]
-            return parts(e.args[0], depth + 1)
+            return parts(e.args[0], depth + 1, upto)
         if isinstance(e, ast.BinOp) and isinstance(e.op, ast.Add):
-            a, b = parts(e.left, depth + 1), parts(e.right, depth + 1)
+            a, b = parts(e.left, depth + 1, upto), parts(e.right, depth + 1, upto)
             return None if a is None or b is None else a + b
+        if isinstance(e, ast.Name) and sum(1 for x in p.effects[:upto] if isinstance(x, ast.Assign) and u(x.targets[0]) == e.id) > 1:
+            # a local bound more than once (payload = ..; payload = compress(payload)): its last binding, read against what came before
+            k = max(i_ for i_, x in enumerate(p.effects[:upto]) if isinstance(x, ast.Assign) and u(x.targets[0]) == e.id)
+            out = parts(p.effects[k].value, depth + 1, k)
+            if out is None or any((isinstance(x, ast.AugAssign) and u(x.target) == e.id) or (
+                    isinstance(x, ast.Expr) and isinstance(x.value, ast.Call) and isinstance(x.value.func, ast.Attribute) and u(x.value.func.value) == e.id)
+                    for x in p.effects[k + 1:upto]):
+                return None
+            return out
+        if isinstance(e, ast.Call) and any(isinstance(a_, ast.Name) and any(isinstance(x, (ast.Assign, ast.AugAssign)) and u(x.targets[0] if isinstance(x, ast.Assign) else x.target) == a_.id
+                                                                            for x in p.effects[:upto]) for a_ in e.args):
+            # f(acc, ..) over a byte accumulator: the accumulator written out as the sum of its parts
+            e2 = copy.deepcopy(e)
+            for i_, a_ in enumerate(e2.args):
+                if isinstance(a_, ast.Name) and any(isinstance(x, (ast.Assign, ast.AugAssign)) and u(x.targets[0] if isinstance(x, ast.Assign) else x.target) == a_.id for x in p.effects[:upto]):
+                    r = parts(a_, depth + 1, upto)
+                    if r is None or any(k_ != "bytes" for k_, _ in r):
+                        return None
+                    e2.args[i_] = ast.parse(" + ".join(t for _, t in r), mode="eval").body
+            return [("bytes", u(e2))]
         if isinstance(e, ast.Call) and isinstance(e.func, ast.Attribute) and e.func.attr == "join" and isinstance(e.func.value, ast.Constant) \
                 and e.func.value.value == b"" and len(e.args) == 1 and not e.keywords:
             # b"".join(chunks): the chunks one after the other
             return chunks(e.args[0], depth + 1)
         if isinstance(e, ast.Name):
-            init = [x for x in p.effects if isinstance(x, ast.Assign) and u(x.targets[0]) == e.id]
+            init = [x for x in p.effects[:upto] if isinstance(x, ast.Assign) and u(x.targets[0]) == e.id]
             if len(init) != 1:
                 return [("bytes", e.id)]
-            out = parts(init[0].value, depth + 1)
+            out = parts(init[0].value, depth + 1, p.effects.index(init[0]))
             if out is None:
                 return None
-            for x in p.effects[p.effects.index(init[0]) + 1:]:
+            for x in p.effects[p.effects.index(init[0]) + 1:upto]:
                 if isinstance(x, ast.AugAssign) and u(x.target) == e.id and isinstance(x.op, ast.Add):
                     r = parts(x.value, depth + 1)
                     if r is None:
@@ -193,18 +215,45 @@ def run(ctx) -> None:
     ok_const = ok_layout = ok_bit = bool(tps)
     seen = set()
     found = ""
+    def on_zstd(text):
+        """[(zstd?, flags expression)] for a flags byte that chooses on self.zstd inside the expression (a conditional expression)"""
+        try:
+            e = ast.parse(text, mode="eval").body
+        except SyntaxError:
+            return []
+        cond = [n for n in ast.walk(e) if isinstance(n, ast.IfExp) and u(n.test) in ("self.zstd", "not self.zstd")]
+        if len(cond) != 1:
+            return []
+        # (re-parsed per alternative: the transformer edits in place)
+        res = []
+        for truth in (True, False):
+            e2 = ast.parse(text, mode="eval").body
+            c2 = [n for n in ast.walk(e2) if isinstance(n, ast.IfExp) and u(n.test) in ("self.zstd", "not self.zstd")][0]
+            take_body = truth == (u(c2.test) == "self.zstd")
+
+            class Pick2(ast.NodeTransformer):
+                def visit_IfExp(self, node):
+                    self.generic_visit(node)
+                    return (node.body if take_body else node.orelse) if node is c2 else node
+            res.append((truth, u(Pick2().visit(e2))))
+        return res
     for p in tps:
         parts = byte_parts(p, p.value) if p.kind == "return" else None
         z = [k for t, k in p.tests if u(t) == "self.zstd"]
         found = str(parts)
-        if parts is None or len(parts) != 3 or not z:
+        if parts is None or len(parts) != 3:
             ok_const = ok_layout = ok_bit = False
             continue
-        seen.add(z[0])
+        cases = [(z[0], parts[2][1])] if z else on_zstd(parts[2][1])
+        if not cases:
+            ok_const = ok_layout = ok_bit = False
+            continue
         ok_layout = ok_layout and parts[0] == ("bytes", "MAGIC_NUMBERS") and parts[1] == ("byte", "self.format.value") and parts[2][0] == "byte"
-        fv = const_int(parts[2][1])
-        ok_const = ok_const and fv is not None and (fv & ~zmask_r) == flags_r and (flags_r >> 6) == 0b01
-        ok_bit = ok_bit and fv is not None and bool(fv & zmask_r) == z[0]
+        for zv, ftxt in cases:
+            seen.add(zv)
+            fv = const_int(ftxt)
+            ok_const = ok_const and fv is not None and (fv & ~zmask_r) == flags_r and (flags_r >> 6) == 0b01
+            ok_bit = ok_bit and fv is not None and bool(fv & zmask_r) == zv
     ctx.check(ok_const, "C09.R1", "EnvelopeHeader.to_bytes: flag constant", m.path, tb.lineno, "bits 7,6 of the flags byte must be 0,1 (the Rust constant)", tb,
               expected=bin(flags_r), found=found)
     ctx.check(ok_layout, "C09.R1", "EnvelopeHeader.to_bytes: layout", m.path, tb.lineno, "the header is magic, then the format byte, then the flags byte", tb, found=found)
